@@ -190,8 +190,8 @@ Definition upd_h (h : hstate) (g : grinner) (rt : bool) (lt : list fam) (rib : l
 Definition apply_disconnect (h : hstate) (gr : option (list fam * N)) (llgr : option (list (fam * N))) : hstate :=
   match gr, llgr with
   | None, None =>
-      (* else branch: ctx.cancel_gr_timer() *)
-      upd_h h (h_gr h) false (h_ltimers h) (h_rib h)
+      (* else branch: if !ctx.gr_state.is_peer_restarting() { ctx.cancel_gr_timer() }   (fix C10-1) *)
+      upd_h h (h_gr h) (if is_peer_restarting (h_gr h) then h_rtimer h else false) (h_ltimers h) (h_rib h)
   | _, _ =>
       let '(g', outs) := gr_step (h_gr h) (GSessionDropped gr llgr) in
       (* cancel_gr_timer, then the outputs in order *)
